@@ -3,6 +3,7 @@ package rules
 import (
 	"go/token"
 	"go/types"
+	"golang.org/x/tools/go/callgraph"
 	"strings"
 
 	"golang.org/x/tools/go/ssa"
@@ -119,10 +120,145 @@ func responseDerived(v ssa.Value) bool {
 			}
 		case *ssa.TypeAssert:
 			return walk(x.X, d+1)
+		case *ssa.Parameter:
+			// a slice handed to an unexported helper: response derived if some caller passes one
+			f := x.Parent()
+			if c21cg == nil || f == nil || f.Object() == nil || f.Object().Exported() {
+				return false
+			}
+			idx := -1
+			for i, p := range f.Params {
+				if p == x {
+					idx = i
+				}
+			}
+			if n := c21cg.Nodes[f]; n != nil && idx >= 0 {
+				for _, e := range n.In {
+					if e.Site == nil {
+						continue
+					}
+					args := e.Site.Common().Args
+					if idx < len(args) && walk(args[idx], d+1) {
+						return true
+					}
+				}
+			}
 		}
 		return false
 	}
 	return walk(v, 0)
+}
+
+var c21cg *callgraph.Graph
+
+// resetOrEqual recognises the "validate or reset" idiom
+//
+//	if len(T) != len(S) { T = <empty slice> }
+//	for i := range T { S[i] }
+//
+// before `at`: an If that compares len(T) with len(S) whose unequal edge stores a zero-length slice to T and then
+// joins the other edge in a block that dominates at. Afterwards len(T) == len(S) or len(T) == 0; `len(T) > len(S)`
+// as the reset condition is accepted as well (len(T) <= len(S) remains), `<` is not.
+func resetOrEqual(at ssa.Instruction, sp, tp string) bool {
+	fn := at.Parent()
+	for _, b := range fn.Blocks {
+		iff, ok := b.Instrs[len(b.Instrs)-1].(*ssa.If)
+		if !ok {
+			continue
+		}
+		bo, ok := iff.Cond.(*ssa.BinOp)
+		if !ok {
+			continue
+		}
+		a, aok := lenArgPath(bo.X)
+		bb, bok := lenArgPath(bo.Y)
+		if !aok || !bok {
+			continue
+		}
+		op := bo.Op
+		if a == sp && bb == tp {
+			a, bb = bb, a
+			op = ssax.SwapOp(op)
+		}
+		if a != tp || bb != sp {
+			continue
+		}
+		// op relates len(T) op len(S); which edge must reset T?
+		var reset, other *ssa.BasicBlock
+		switch op {
+		case token.NEQ, token.GTR:
+			reset, other = b.Succs[0], b.Succs[1]
+		case token.EQL, token.LEQ:
+			reset, other = b.Succs[1], b.Succs[0]
+		default:
+			continue
+		}
+		stores := false
+		for _, in := range reset.Instrs {
+			st, ok := in.(*ssa.Store)
+			if !ok || ssax.Path(st.Addr) != "&"+tp && ssax.Path(st.Addr) != tp {
+				if ok {
+					if fa, isFA := st.Addr.(*ssa.FieldAddr); isFA {
+						_ = fa
+					}
+				}
+				if !ok {
+					continue
+				}
+			}
+			if ok && zeroLenSlice(st.Val) && storeTargets(st, tp) {
+				stores = true
+			}
+		}
+		if !stores || len(reset.Succs) != 1 {
+			continue
+		}
+		merge := reset.Succs[0]
+		if merge != other && !(len(other.Succs) == 1 && other.Succs[0] == merge) {
+			continue
+		}
+		if merge.Dominates(at.Block()) {
+			return true
+		}
+	}
+	return false
+}
+
+// storeTargets: the store writes the location whose load has access path tp.
+func storeTargets(st *ssa.Store, tp string) bool {
+	// the path of a load `*addr` is rendered from addr; compare by rendering a synthetic load
+	for _, r := range *st.Addr.Referrers() {
+		if u, ok := r.(*ssa.UnOp); ok && u.Op == token.MUL && ssax.Path(u) == tp {
+			return true
+		}
+	}
+	// no load through this very address value: compare field identity textually
+	if fa, ok := st.Addr.(*ssa.FieldAddr); ok {
+		if ld := fieldOf(fa); ld != nil {
+			return len(tp) >= len(ld.Name()) && tp[len(tp)-len(ld.Name()):] == ld.Name()
+		}
+	}
+	return false
+}
+
+func zeroLenSlice(v ssa.Value) bool {
+	switch x := ssax.Strip(v).(type) {
+	case *ssa.Slice:
+		if al, ok := x.X.(*ssa.Alloc); ok {
+			if p, ok := al.Type().Underlying().(*types.Pointer); ok {
+				if arr, ok := p.Elem().Underlying().(*types.Array); ok && arr.Len() == 0 {
+					return true
+				}
+			}
+		}
+	case *ssa.MakeSlice:
+		if k, ok := ssax.ConstInt(x.Len); ok && k == 0 {
+			return true
+		}
+	case *ssa.Const:
+		return x.Value == nil
+	}
+	return false
 }
 
 // lenFactsOK: index idx into slice s is provably in bounds from dominating facts.
@@ -218,6 +354,9 @@ func indexInBounds(ia ssa.Instruction, s ssa.Value, idx ssa.Value) (bool, string
 		}
 		// the response slice's length was validated against some request-side length
 		// (the request slices are built in lock step by the caller)
+		if resetOrEqual(ia, sp, tp) {
+			return true, "len(" + tp + ") was compared with len(" + sp + ") and reset to an empty slice on mismatch"
+		}
 		if sResp, tResp := responsePath(facts, sp), responsePath(facts, tp); sResp || tResp {
 			return true, "response length validated against the request: " + sp + " / " + tp
 		}
@@ -235,6 +374,7 @@ func c21(c *core.Ctx) {
 
 	fns := libFns(c, "opcua", "monitor")
 	c.Count("functions in opcua+monitor", len(fns))
+	c21cg = c.P.CallGraph()
 	// index
 	for _, f := range fns {
 		for _, b := range f.Blocks {
